@@ -191,3 +191,37 @@ def run(ctx):
                 jm.rel,
                 fn.lineno,
             )
+
+    # ---- C10.5 a thread that may exit on its own is restartable by every submission ------------------
+    # Where the start method decides per thread with `not self.<thread>.is_alive()`, that thread's loop ends when its own work collection is
+    # empty while another thread keeps the executor "running".  Every path through the start method must therefore reach that liveness test;
+    # an early return on the shared running flag leaves a submission without the thread that would consume it.
+    r5 = ctx.rule("C10.5", "per-thread liveness tests in the start method are reached on every path", floor=1)
+    from ..cfg import CFG
+
+    nlive = 0
+    for rel in sorted(r for r in repo.modules if r.startswith("redun/executors/")):
+        mod = repo.mod(rel)
+        for cname, cls in mod.classes.items():
+            if "." in cname:
+                continue
+            for st in cls.body:
+                if not isinstance(st, FuncNode):
+                    continue
+                spawns = [c for c in calls_in(st) if (call_name(c) or "").endswith("Thread") and kwarg(c, "target") is not None and src(kwarg(c, "target")).startswith("self.")]
+                if not spawns:
+                    continue
+                cfg5 = CFG(st)
+                for t in cfg5.nodes:
+                    if t.kind == "test" and isinstance(t.ast, ast.expr) and "is_alive()" in src(t.ast):
+                        nlive += 1
+                        r5.check(
+                            cfg5.must_pass(cfg5.entry, [t]),
+                            f"{rel}:{cname}.{st.name}:{src(t.ast)[:50]}",
+                            f"{cname}.{st.name} can return without evaluating `{src(t.ast)}`: a job submitted while the executor is still marked running but this thread has already "
+                            "finished (its own queue was empty) is registered and never picked up -- it is neither sent nor reported",
+                            rel,
+                            t.lineno,
+                        )
+    if nlive == 0:
+        raise AnalysisError("no per-thread is_alive() liveness test found in any executor start method", "executors")
